@@ -3,7 +3,7 @@ semidiscrete variational Peierls-Nabarro energies (SDVPN), arctangent profiles.
 
 Tie: (1) translator: `translate()` reads SDVPN.py / GammaSurface.py with `ast` and writes the energy-term methods, disldensity,
 the default-argument block, the constructor frame / flag defaults, solve's keyword block and decompose, wrap_cushion / wrap_unit,
-a12_to_pos and pos_to_a12 as Lean definitions (lean/Atomman/Generated/PNEnergy.lean); lean/Proofs/C18_Gen.lean proves each equal
+a12_to_pos and pos_to_a12, the profile formulas of pn_arctan_disregistry / pn_arctan_disldensity as Lean definitions (lean/Atomman/Generated/PNEnergy.lean); lean/Proofs/C18_Gen.lean proves each equal
 to the hand model (`gen_…_eq_model`).  (2) correspondence (hand-written model lean/Atomman/C18.lean).  The real scipy `Rbf` objects of a
 GammaSurface are wrapped by a recorder: the arguments the implementation queries them with are compared
 with the model's wrapped coordinates / tile offsets, and the returned values are handed to the model as
@@ -41,10 +41,15 @@ THEOREMS = [
     'C18.gen_longrange_eq_model', 'C18.gen_stress_eq_model', 'C18.gen_surface_eq_model', 'C18.gen_nonlocal_loop_eq_model',
     'C18.gen_nonlocal_eq_model', 'C18.gen_total_eq_model', 'C18.gen_args_eq_model', 'C18.gen_init_flags_eq_model',
     'C18.gen_solve_keywords_eq_model', 'C18.gen_total_order_eq_model', 'C18.gen_frame_eq_model', 'C18.gen_decompose_eq_model',
-    'C18.gen_a12_to_pos_eq_model', 'C18.gen_wrap_cushion_eq_model', 'C18.gen_wrap_unit_eq_model',
+    'C18.gen_pn_arctan_disregistry_eq_model', 'C18.gen_pn_arctan_disldensity_eq_model',
+    'C18.gen_a12_to_pos_eq_model', 'C18.solve_scaled_basis', 'C18.gen_pos_to_a12_eq_model', 'C18.gen_wrap_cushion_eq_model', 'C18.gen_wrap_unit_eq_model',
     # the clauses restated about the source's own (generated) definitions
     'C18.source_total_is_sum_of_formulas', 'C18.source_elastic_quadratic', 'C18.source_shift_invariant', 'C18.source_call',
-    'C18.source_solve_ends', 'C18.source_wrap_periodic', 'C18.source_a12_pos_inverse',
+    'C18.source_solve_ends', 'C18.source_wrap_periodic', 'C18.source_a12_pos_inverse', 'C18.source_conversions_inverse', 'C18.source_E_eq_model',
+    # refusals of the profile setters and of solve(): which inputs raise, at which statement, what is stored then
+    'C18.xSetter_accepts_uniform', 'C18.xSetter_accepts_iff', 'C18.xSetter_short', 'C18.xSetter_refuses_nonincreasing', 'C18.xSetter_scale_shift',
+    'C18.dSetter_accepts_planar', 'C18.dSetter_empty', 'C18.solve_result_accepted', 'C18.solve_refusal_stages', 'C18.solve_accepts_iff',
+    'C18.setters_refusal',
 ]
 PARTIAL = {
     'solve never raises the total energy': 'reduced by solve_not_raises_of_descent to the descent property of the minimiser (f(result) <= '
@@ -71,6 +76,13 @@ ASSUMPTIONS = [
     'IEEE double rounding of the implementation is bounded by the stated rtol (1e-9 x condition) away from the wrap '
     'boundaries; on dyadic grids wrap and blend decisions are compared exactly',
     'unit conversion factors of the data model are non-zero (C09)',
+    'generated definitions (Generated/PNEnergy.lean): numpy elementwise operations on two arrays are written as zipWith (numpy raises '
+    'on a shape mismatch where zipWith truncates; every pair of slices the source forms has equal length, which is what the length '
+    'goals of the gen_..._eq_model proofs establish); np.linalg.solve is the exact solution of the 3 x 3 system; '
+    'np.linalg.norm(a3vect) ** 0.5 is a positive number rn with rn^4 = |a3vect|^2 (parameter of gen_pos_to_a12); the NaN that '
+    'psi replaces by 0 arises exactly when the integer factor under np.abs in the logarithm vanishes (0 * log 0; dx > 0 by the x setter)',
+    'refusal model (xSetter?, dSetter?, Obj.solve?): np.allclose / comparisons are evaluated exactly on the given numbers; the '
+    'correspondence generates refused / accepted inputs a decade or more away from each tolerance',
 ]
 TRUSTED = ['numpy / scipy (Rbf, linalg.solve, linalg.inv) in the correspondence run', 'DataModelDict json/xml (de)serialisation',
            'fractions.Fraction and math.log/atan/sqrt in the search oracle']
@@ -234,7 +246,7 @@ class _Np:
             return f'(List.zipWith (fun p q => p {sym} q) {a[0]} {b[0]})', 'LK'
         if ta == 'LK' and tb in scal:
             return f'(({a[0]}).map (fun t => t {sym} {self.k(b)}))', 'LK'
-        if ta in scal and tb == 'LK' and sym in '+*-':
+        if ta in scal and tb == 'LK':
             return f'(({b[0]}).map (fun t => {self.k(a)} {sym} t))', 'LK'
         if ta == 'LV' and tb == 'LV' and sym in '+-*':
             f = {'+': 'fun p q => p + q', '-': 'fun p q => p - q', '*': 'npMulV'}[sym]
@@ -245,6 +257,8 @@ class _Np:
             return f'(({b[0]}).map (fun v => V3.smul {self.k(a)} v))', 'LV'
         if ta == 'LVT' and tb == 'LK' and sym == '/':
             return f'(npRowDiv {a[0]} {b[0]})', 'LVT'
+        if ta == 'LV' and tb == 'V' and sym in '+-':
+            return f'(({a[0]}).map (fun v => v {sym} {b[0]}))', 'LV'
         if ta == 'V' and tb == 'V' and sym in '+-':
             return f'({a[0]} {sym} {b[0]})', 'V'
         if ta == 'V' and tb in scal and sym in '*/':
@@ -457,6 +471,11 @@ def _body_to_lean(tr, stmts, ret_type, special=None):
             if t[0] != nm:
                 out.append(f'let {nm} := {t[0]}')
             tr.env[nm] = (nm, t[1])
+        elif isinstance(st, ast.AugAssign) and isinstance(st.target, ast.Name) and isinstance(st.op, (ast.Add, ast.Sub, ast.Mult, ast.Div)):
+            # `name op= expr` is `name = name op expr`
+            eq = ast.Assign(targets=[ast.Name(id=st.target.id, ctx=ast.Store())],
+                            value=ast.BinOp(left=ast.Name(id=st.target.id, ctx=ast.Load()), op=st.op, right=st.value))
+            return out + _body_to_lean(tr, [eq] + list(stmts[k + 1:]), ret_type, special)
         elif isinstance(st, ast.Return) and st.value is not None:
             if k != len(stmts) - 1:
                 raise _TE('statement after return', st)
@@ -762,7 +781,7 @@ def _gen_sdvpn(src):
         else:
             break
     sig = [a.arg for a in solve.args.args][1:]
-    if sorted(sig) != sorted(kws) or sig[:10] != kws[:10] or any(ast.unparse(d) != 'None' for d in solve.args.defaults) or len(solve.args.defaults) != len(sig):
+    if sorted(sig) != sorted(kws) or any(ast.unparse(d) != 'None' for d in solve.args.defaults) or len(solve.args.defaults) != len(sig):
         raise _TE(f'solve: signature {sig} and keyword block {kws} differ / defaults not None')
     parts.append('/-- `solve(**kwargs)`: keywords of the signature = the "change attribute values if given" block (`if kw is not None: '
                  'self.kw = kw`), in order. -/\ndef gen_solve_keywords : List String :=\n  [' + ', '.join(f'"{k}"' for k in kws) + ']\n')
@@ -918,14 +937,80 @@ def _gen_gamma(gsrc):
     return parts
 
 
+
+def _gen_arctan():
+    """the profile formulas of pn_arctan_disregistry / pn_arctan_disldensity (the statements after the grid / default-Burgers part);
+    `np.arctan` -> `atan`, `np.pi` -> `pi`, the three `np.linalg.norm` values are parameters."""
+    import ast
+    from ..translate import get_function, strip_doc
+    parts = []
+    norms = {'burgers': 'normB', 'disregistry[-1]': 'normLast', 'intdisldensity': 'normInt'}
+
+    def norm(t, n):
+        a = ast.unparse(n.args[0]) if len(n.args) == 1 and not n.keywords else None
+        if a not in norms:
+            raise _TE('norm of an unexpected quantity', n)
+        return norms[a], 'K'
+
+    def arctan(t, n):
+        s, ty = t.tr(n.args[0])
+        if len(n.args) != 1 or ty != 'LK':
+            raise _TE('np.arctan of a non-list', n)
+        return f'(({s}).map atan)', 'LK'
+
+    def outer(t, n):
+        a, b = t.tr(n.args[0]), t.tr(n.args[1])
+        if (a[1], b[1]) != ('LK', 'V'):
+            raise _TE('np.outer', n)
+        return f'(({a[0]}).map (fun t => V3.smul t {b[0]}))', 'LV'
+    for fname, sig, flags, params, ret in (
+            ('pn_arctan_disregistry', ['x', 'xmax', 'xstep', 'xnum', 'burgers', 'center', 'halfwidth', 'normalize', 'shift'],
+             {'normalize': 'True', 'shift': 'True'},
+             [('atan', 'K → K'), ('pi', 'K'), ('x', 'List K'), ('burgers', 'V3 K'), ('center halfwidth', 'K'), ('normalize shift', 'Bool'),
+              ('normB normLast', 'K')], 'disregistry'),
+            ('pn_arctan_disldensity', ['x', 'xmax', 'xstep', 'xnum', 'burgers', 'center', 'halfwidth', 'normalize'], {'normalize': 'True'},
+             [('pi', 'K'), ('x', 'List K'), ('burgers', 'V3 K'), ('center halfwidth', 'K'), ('normalize', 'Bool'), ('normB normInt', 'K')],
+             'disldensity')):
+        src = cm.source(f'atomman/defect/{fname}.py')
+        fn = get_function(src, fname)
+        if [a.arg for a in fn.args.args] != sig:
+            raise _TE(f'{fname}: signature changed')
+        dflt = dict(zip(sig[len(sig) - len(fn.args.defaults):], [ast.unparse(d) for d in fn.args.defaults]))
+        if any(dflt.get(k) != v for k, v in flags.items()) or dflt.get('center') != '0.0' or dflt.get('halfwidth') != '1':
+            raise _TE(f'{fname}: defaults changed: {dflt}')
+        body = strip_doc(fn.body)
+        k0 = [k for k, s in enumerate(body) if ast.unparse(s) == 'burgers = np.asarray(burgers)']
+        if len(k0) != 1 or ast.unparse(body[k0[0] - 1]) != 'if burgers is None:\n    burgers = np.array([1.0, 0.0, 0.0])':
+            raise _TE(f'{fname}: default Burgers vector block changed')
+        rest = body[k0[0] + 1:]
+        if ast.unparse(rest[-1]) != f'return (x, {ret})':
+            raise _TE(f'{fname}: return changed', rest[-1])
+        rest = rest[:-1] + [ast.parse(f'return {ret}').body[0]]
+        if fname == 'pn_arctan_disldensity':
+            # the un-normalised disregistry is computed by the sibling function; only its end-to-end norm is used
+            blk = [s for s in rest if isinstance(s, ast.If)]
+            want = ['disregistry = pn_arctan_disregistry(x=x, burgers=burgers, center=center, halfwidth=halfwidth, normalize=False)[1]',
+                    'intdisldensity = disregistry[-1] - disregistry[0]']
+            if len(blk) != 1 or [ast.unparse(s) for s in blk[0].body[:2]] != want or len(blk[0].body) != 3:
+                raise _TE('pn_arctan_disldensity: normalisation block changed')
+            blk[0].body = blk[0].body[2:]
+        tr = _Np({'x': ('x', 'LK'), 'burgers': ('burgers', 'V'), 'center': ('center', 'K'), 'halfwidth': ('halfwidth', 'K'),
+                  'normalize': ('normalize', 'B'), 'shift': ('shift', 'B')},
+                 funcs={'np.linalg.norm': norm, 'np.arctan': arctan, 'np.outer': outer})
+        parts.append(_def('gen_' + fname, params, 'List (V3 K)', _body_to_lean(tr, rest, 'LV'),
+                          f'{fname}: the profile on a given grid `x` (`np.linalg.norm` values are parameters)'))
+    return parts
+
+
 def translate():
     src = cm.source('atomman/defect/SDVPN.py')
     gsrc = cm.source('atomman/defect/GammaSurface.py')
-    parts = ['/- GENERATED by harness/props/c18.py from atomman/defect/SDVPN.py and GammaSurface.py — do not edit. -/',
+    parts = ['/- GENERATED by harness/props/c18.py from atomman/defect/SDVPN.py, GammaSurface.py, pn_arctan_*.py — do not edit. -/',
              'import Atomman.C18', '', 'namespace Atomman.C18.Gen', 'open Atomman Atomman.C18', '',
              'variable {K : Type} ' + _CLS, '']
     parts += _gen_sdvpn(src)
     parts += _gen_gamma(gsrc)
+    parts += _gen_arctan()
     parts.append('end Atomman.C18.Gen\n')
     return {'PNEnergy': '\n'.join(parts)}
 
@@ -2221,6 +2306,194 @@ def _eval_obj(ctx, name, pn, x, d, mode, rep, step, stored=None, gam=None):
                          f'({name}; arguments given: {mode})', dict(rep, step=step, mode=mode))
 
 
+# ---- refusals of the profile setters and of solve(): which inputs raise, at which statement, what is stored then
+REFUSAL_OF = {'xAssert': ('err:assert', 'x values must'), 'xIndex': ('err:raised', 'IndexError'), 'dAssert': ('err:assert', 'out-of-plane'),
+              'dValue': ('err:value', 'zero-size'), 'lengths': ('err:value', 'not of the same length')}
+
+
+def gen_x_variant(rng, n=None):
+    """(kind, x) — grids the x setter accepts (uniform dyadic / decimal, one point moved by 1e-7 … 1e-6 of the step, any origin
+    and scale) or refuses (a point moved by 1e-4 … 0.3 of the step, decreasing, repeated points, fewer than two points)."""
+    np = _np()
+    n = n or rng.randint(3, 9)
+    dx = rng.choice([0.25, 0.5, 1.0, 0.1, 0.3, 2.0 ** -30, 2.0 ** 40, 1e-10])
+    x0 = rng.choice([0.0, -1.0, 0.3]) * dx * rng.choice([1, 7])
+    x = x0 + dx * np.arange(n, dtype=float)
+    kind = rng.choice(['uniform', 'uniform', 'moved-small', 'moved-big', 'decreasing', 'repeated', 'one-point', 'empty', 'two-point', 'last-moved'])
+    if kind == 'moved-small':
+        x[rng.randrange(n)] += rng.choice([1e-7, 1e-6, -1e-6]) * dx
+    elif kind == 'moved-big':
+        x[rng.randrange(n)] += rng.choice([1e-4, -1e-3, 0.1, 0.3]) * dx
+    elif kind == 'last-moved':
+        x[-1] += rng.choice([1e-4, 1e-6, -0.5, 2.0]) * dx
+    elif kind == 'decreasing':
+        x = x[::-1].copy()
+    elif kind == 'repeated':
+        x = np.full(n, x0)
+    elif kind == 'one-point':
+        x = x[:1]
+    elif kind == 'empty':
+        x = x[:0]
+    elif kind == 'two-point':
+        x = x[:2]
+    return kind, x
+
+
+def gen_d_variant(rng, n, bmag):
+    """(kind, d) — profiles the disregistry setter accepts (planar; y up to 1e-9 of the largest entry; all zeros) or refuses
+    (y from 1e-7 of the largest entry; empty array), at several magnitudes."""
+    np = _np()
+    s = bmag * rng.choice([1.0, 2.0 ** -40, 2.0 ** 30, 1e-10])
+    d = np.zeros((n, 3))
+    d[:, 0] = s * np.array([cm.dyadic(rng, -1, 2, 4) for _ in range(n)])
+    d[:, 2] = s * np.array([cm.dyadic(rng, -1, 1, 4) for _ in range(n)])
+    if n:
+        d[rng.randrange(n), 0] = s * 2.0      # the largest entry, exactly
+    if n > 1 and rng.random() < 0.5:
+        # the usual physical profile starts at zero disregistry: the FIRST row is exactly zero, the largest entry is elsewhere
+        d[0, :] = 0.0
+        d[rng.randrange(1, n), 0] = s * 2.0
+    kind = rng.choice(['planar', 'planar', 'y-small', 'y-big', 'zeros', 'empty', 'y-end-small'])
+    if kind == 'y-small' and n:
+        d[rng.randrange(n), 1] = rng.choice([1e-10, -1e-9]) * 2.0 * s
+    elif kind == 'y-big' and n:
+        d[rng.randrange(n), 1] = rng.choice([1e-7, -1e-6, 0.1]) * 2.0 * s
+    elif kind == 'y-end-small' and n:
+        d[rng.choice([0, n - 1]), 1] = 1e-9 * 2.0 * s
+    elif kind == 'zeros':
+        d[:] = 0.0
+    elif kind == 'empty':
+        d = np.zeros((0, 3))
+    return kind, d
+
+
+class _ScaledMin:
+    """stub minimiser returning the start vector times a factor (a tiny factor makes the END rows dominate the result)."""
+
+    def __init__(self, factor):
+        self.factor, self.out = factor, None
+
+    def __call__(self, fun, x0, args=(), method=None, options=None, **kw):
+        from scipy.optimize import OptimizeResult
+        np = _np()
+        self.out = np.array(x0, dtype=float) * self.factor
+        return OptimizeResult(x=self.out, success=True, nfev=0)
+
+
+def _refusal_case(ctx, name, v, g, spec, rng):
+    """ONE real object and ONE model object: guarded profile setters and solve(x=, disregistry=, tau=) with a stub minimiser;
+    outcome (accepted / which exception, from which statement) and the stored x / disregistry / tau afterwards."""
+    np = _np()
+    mod = sys.modules['atomman.defect.SDVPN']
+    st = rand_settings(rng)
+    pn = new_pn(v, g, st)
+    K0, b0, T0 = pn.K_tensor.copy(), pn.burgers.copy(), pn.transform.copy()
+    x, d = gen_profile(rng, pn, dyadic=True)
+    pn.x, pn.disregistry = x.copy(), d.copy()
+    steps = []
+    rep = {'op': 'refusal', 'system': name, 'spec': spec, 'settings0': dict(st), 'x': x.tolist(), 'd': d.tolist(), 'steps': steps}
+    ctx.driver.ask('onew ' + settings_wire(K0, b0, T0, st))
+    ctx.driver.ask(f'oset x {len(x)} {cm.frs(x)}')
+    ctx.driver.ask(f'oset d {len(d)} {cm.frs(d)}')
+    bmag = float(np.abs(pn.burgers).max())
+
+    def outcome(r):
+        return 'ok' if not isinstance(r, Raised) else r
+
+    def agree(r, code):
+        if code == 'ok' or not isinstance(r, Raised):
+            return code == 'ok' and not isinstance(r, Raised)
+        cls, text = REFUSAL_OF.get(code, ('?', '?'))
+        return r.cls == cls and text in r.text
+
+    def state_ok():
+        out = ctx.driver.ask('oeval state 0')
+        if out.startswith('err:'):
+            return f'model state: {out}'
+        mv = cm.unfrs(out)
+        na = int(mv[3])
+        tau1 = mv[0:3]
+        k = 3 + 1 + na + 9 + 1 + 4
+        nx = int(mv[k])
+        mx, md = mv[k + 1:k + 1 + nx], mv[k + 1 + nx:]
+        sx, sd = np.asarray(pn.x, dtype=float), np.asarray(pn.disregistry, dtype=float)
+        if [F(float(t)) for t in sx] != mx:
+            return f'stored x is {sx.tolist()}, model object holds {[float(t) for t in mx]}'
+        if [F(float(t)) for t in sd.ravel()] != md:
+            return f'stored disregistry is {sd.tolist()}, model object holds {[float(t) for t in md]}'
+        if [F(float(t)) for t in np.asarray(pn.tau)[1]] != tau1:
+            return f'tau[1] is {np.asarray(pn.tau)[1].tolist()}, model object holds {[float(t) for t in tau1]}'
+        return None
+    for step in range(rng.randint(3, 6)):
+        k = rng.random()
+        if k < 0.3:
+            kind, xv = gen_x_variant(rng)
+            steps.append({'kind': 'set-x', 'variant': kind, 'x': xv.tolist()})
+            r = call(setattr, pn, 'x', xv.copy())
+            code = ctx.driver.ask(f'oset2 x {len(xv)} {cm.frs(xv)}')
+            pure = ctx.driver.ask(f'oguard x {len(xv)} {cm.frs(xv)}')
+            what = f'obj.x = {kind} grid {xv.tolist()}'
+            if pure != code:
+                ctx.disagree('refusal:model', f'{what}: xSetter? says {pure}, the object {code}', dict(rep, step=step))
+        elif k < 0.55:
+            kind, dv = gen_d_variant(rng, rng.randint(3, 8), bmag)
+            steps.append({'kind': 'set-d', 'variant': kind, 'd': dv.tolist()})
+            r = call(setattr, pn, 'disregistry', dv.copy())
+            code = ctx.driver.ask(f'oset2 d {len(dv)} {cm.frs(dv)}')
+            what = f'obj.disregistry = {kind} profile {dv.tolist()}'
+        else:
+            n = rng.randint(3, 8)
+            akw, wire = {}, []
+            desc = {}
+            if rng.random() < 0.7:
+                kind, xv = gen_x_variant(rng, n)
+                if rng.random() < 0.6:
+                    kind, xv = 'uniform', float(rng.choice([0.25, 0.5, 0.1])) * np.arange(n, dtype=float)
+                akw['x'], desc['x'] = xv, kind
+            if rng.random() < 0.7:
+                kind, dv = gen_d_variant(rng, n + (1 if rng.random() < 0.15 else 0), bmag)
+                if rng.random() < 0.5:
+                    kind, dv = 'planar', gen_d_variant(rng, n, bmag)[1] * np.array([1.0, 0.0, 1.0])
+                akw['disregistry'], desc['disregistry'] = dv, kind
+            tau = None
+            if rng.random() < 0.6:
+                tau = np.array(_gen_tau(rng), dtype=float)
+            factor = rng.choice([1.0, 1.0, 2.0 ** -60, 0.0, -0.5])
+            fake = _ScaledMin(factor)
+            steps.append({'kind': 'solve', 'variants': desc, 'x': akw['x'].tolist() if 'x' in akw else None,
+                          'd': akw['disregistry'].tolist() if 'disregistry' in akw else None, 'tau': None if tau is None else tau.tolist(),
+                          'factor': factor})
+            stored_d = np.asarray(pn.disregistry, dtype=float).copy()
+            orig = mod.minimize
+            mod.minimize = fake
+            try:
+                r = call(pn.solve, **{k_: np.array(v_).copy() for k_, v_ in akw.items()}, **({} if tau is None else {'tau': tau.copy()}))
+            finally:
+                mod.minimize = orig
+            # what the stub would return for the model: the decomposed effective guess times the factor (the effective guess is
+            # the given or stored profile; if the call was refused before the minimiser the value is irrelevant)
+            eff = np.asarray(akw['disregistry'], dtype=float) if 'disregistry' in akw else stored_d
+            inner = eff[1:-1] if len(eff) >= 2 else eff[:0]
+            res = np.concatenate([inner[:, 0], inner[:, 2]]) * factor if fake.out is None else fake.out
+            line = ('osolve2 ' + (f'1 {len(akw["x"])} {cm.frs(akw["x"])} ' if 'x' in akw else '0 ')
+                    + (f'1 {len(akw["disregistry"])} {cm.frs(akw["disregistry"])} ' if 'disregistry' in akw else '0 ')
+                    + ('1 ' + cm.frs(tau[1]) if tau is not None else '0') + ' 0 0 0 0 0 0 0 ' + f'{len(res)} ' + cm.frs(res))
+            code = ctx.driver.ask(line)
+            what = f'solve({", ".join(f"{a}={desc[a]}" for a in desc)}{", tau=…" if tau is not None else ""}) with a stub minimiser (result = start x {factor})'
+        ctx.stats.case('refusal', (name, steps[-1]['kind'], str(steps[-1])[:300], code),
+                       sample={'op': steps[-1]['kind'], 'variant': steps[-1].get('variant', steps[-1].get('variants')), 'model': code})
+        if code.startswith('err:'):
+            ctx.disagree('refusal:driver', f'{what}: model {code}', dict(rep, step=step))
+            return
+        if not agree(r, code):
+            ctx.disagree('refusal:outcome', f'{what}: implementation {outcome(r)}, model {code} [{name}]', dict(rep, step=step))
+            return
+        w = state_ok()
+        if w:
+            ctx.disagree('refusal:state', f'after {what} (outcome {code}): {w} [{name}]', dict(rep, step=step))
+            return
+
+
 def _seq_case(ctx, name, v, g, spec, rng, gam=None):
     """ONE real object and ONE model object under the same edit sequence; energies compared after every step, with
     every subset of the optional arguments of the term methods once the object has a stored profile."""
@@ -2456,6 +2729,8 @@ def correspond(ctx):
             guarded(ctx, 'solve-embed', rep, _solve_embed_case, ctx, name, pn, rng)
         for it in range(ctx.n(3, 20)):
             guarded(ctx, 'obj', rep, _seq_case, ctx, name, v, g, spec, rng, (rec, cs, spec))
+        for it in range(ctx.n(4, 30)):
+            guarded(ctx, 'refusal', rep, _refusal_case, ctx, name, v, g, spec, rng)
     for it in range(ctx.n(30, 300)):
         guarded(ctx, 'arctan', {'op': 'arctan'}, _arctan_case, ctx, rng)
     ctx.extra['t_sdvpn_s'] = round(time.time() - t1, 2)
@@ -5469,7 +5744,189 @@ def gen_counts_cases(ctx, rng, broken):
     return cases
 
 
-CHECKS = {'gamma': chk_gamma, 'gseq': chk_gseq, 'sdvpn': chk_sdvpn, 'elastic': chk_elastic, 'solve': chk_solve, 'halfwidth': chk_halfwidth,
+def chk_defaults(ctx, case):
+    """option / default handling of the constructor: an object built with `SDVPN(volterra=, gamma=)` alone has the DOCUMENTED
+    settings (fullstress True, cdiffelastic False, cdiffsurface True, cdiffstress False, tau / beta zeros, alpha 0.0, cut-off
+    1000 angstrom); each keyword given at construction is the setting read back (the others stay at their defaults), and
+    the terms of the default object are the documented formulas evaluated with the documented defaults."""
+    import atomman as am
+    import atomman.unitconvert as uc
+    np = _np()
+
+    def bad(key, what):
+        ctx.violate('sdvpn:defaults:' + key, f'{what} [{case["system"]}]', case)
+    v, g, A1, A2, scale = _system(case)
+    doc = {'fullstress': True, 'cdiffelastic': False, 'cdiffsurface': True, 'cdiffstress': False}
+    pn = call(am.defect.SDVPN, volterra=v, gamma=g)
+    ctx.stats.case('s:defaults', (case['system'],))
+    if isinstance(pn, Raised):
+        return bad('raises', f'SDVPN(volterra=, gamma=) {pn}')
+    got = {k: getattr(pn, k) for k in doc}
+    if got != doc or any(type(x) is not bool for x in got.values()):
+        return bad('flags', f'SDVPN(volterra=, gamma=) has flags {got}, documented defaults are {doc}')
+    if np.abs(pn.tau).max() != 0.0 or np.abs(pn.beta).max() != 0.0 or tuple(pn.alpha) != (0.0,) \
+            or abs(pn.cutofflongrange - uc.set_in_units(1000, 'angstrom')) > 1e-9 * uc.set_in_units(1000, 'angstrom'):
+        return bad('values', f'default tau / beta / alpha / cut-off are {pn.tau.tolist()} {pn.beta.tolist()} {pn.alpha} {pn.cutofflongrange}')
+    for k in doc:
+        for val in (True, False):
+            q = call(am.defect.SDVPN, volterra=v, gamma=g, **{k: val})
+            if isinstance(q, Raised):
+                return bad('raises', f'SDVPN(…, {k}={val}) {q}')
+            want = dict(doc, **{k: val})
+            got = {kk: getattr(q, kk) for kk in doc}
+            if got != want:
+                return bad('keyword', f'SDVPN(…, {k}={val}) has flags {got}, expected {want}')
+    # the terms of the default object = the formulas with the documented defaults, and = an object given them explicitly
+    x, d = np.array(case['x']), np.array(case['d'])
+    q = call(am.defect.SDVPN, volterra=v, gamma=g, **doc)
+    beta = np.array(case['beta'])
+    for o in (pn, q):
+        o.beta = beta
+    for term in ('surface_energy', 'stress_energy', 'elastic_energy', 'total_energy'):
+        a, b = call(getattr(pn, term), x, d), call(getattr(q, term), x, d)
+        if isinstance(a, Raised) or isinstance(b, Raised) or not (a == b):
+            return bad('terms', f'{term} of the default object is {a}, of an object given the documented defaults explicitly {b}')
+    rho = (d[2:] - d[:-2]) / (x[2:] - x[:-2])[:, None]
+    want = float(np.sum(np.dot(rho ** 2 * (x[1] - x[0]), beta)) / 4)
+    a = call(pn.surface_energy, x, d)
+    if isinstance(a, Raised) or abs(a - want) > 1e-9 * max(abs(want), 1e-12):
+        bad('surface', f'surface_energy of the default object is {a}; the documented formula with the documented default (central difference) gives {want}')
+
+
+def o_x_rule(x):
+    """the x setter's documented rule, exact: 'x values must be evenly spaced' (every step within 1e-5 of the first, relative),
+    'x values must be in increasing order'; fewer than two points cannot have a step (IndexError)."""
+    x = [F(float(t)) for t in x]
+    if len(x) < 2:
+        return 'xIndex'
+    diffs = [x[i + 1] - x[i] for i in range(len(x) - 1)]
+    d0 = diffs[0]
+    if any(abs(t - d0) > F(1, 100000) * abs(d0) for t in diffs) or not d0 > 0:
+        return 'xAssert'
+    return 'ok'
+
+
+def o_d_rule(d):
+    """the disregistry setter's rule, exact: |y| <= 1e-8 * (largest entry of the whole array); an empty array has no largest entry."""
+    rows = [[F(float(t)) for t in r] for r in d]
+    if not rows:
+        return 'dValue'
+    m = max(abs(t) for r in rows for t in r)
+    if any(abs(r[1]) > F(1, 10 ** 8) * m for r in rows):
+        return 'dAssert'
+    return 'ok'
+
+
+def gen_refusal_steps(rng, bmag):
+    """JSON-able steps for `chk_refusal`: guarded setters and solve(x=, disregistry=, tau=) with a stub minimiser."""
+    np = _np()
+    steps = []
+    for _ in range(rng.randint(3, 6)):
+        k = rng.random()
+        if k < 0.3:
+            kind, xv = gen_x_variant(rng)
+            steps.append({'kind': 'set-x', 'variant': kind, 'x': xv.tolist()})
+        elif k < 0.55:
+            kind, dv = gen_d_variant(rng, rng.randint(3, 8), bmag)
+            steps.append({'kind': 'set-d', 'variant': kind, 'd': dv.tolist()})
+        else:
+            n = rng.randint(3, 8)
+            st = {'kind': 'solve', 'variants': {}, 'x': None, 'd': None, 'tau': None, 'factor': rng.choice([1.0, 1.0, 2.0 ** -60, 0.0, -0.5])}
+            if rng.random() < 0.7:
+                kind, xv = gen_x_variant(rng, n)
+                if rng.random() < 0.6:
+                    kind, xv = 'uniform', float(rng.choice([0.25, 0.5, 0.1])) * np.arange(n, dtype=float)
+                st['x'], st['variants']['x'] = xv.tolist(), kind
+            if rng.random() < 0.7:
+                kind, dv = gen_d_variant(rng, n + (1 if rng.random() < 0.15 else 0), bmag)
+                if rng.random() < 0.5:
+                    kind, dv = 'planar', gen_d_variant(rng, n, bmag)[1] * np.array([1.0, 0.0, 1.0])
+                st['d'], st['variants']['disregistry'] = dv.tolist(), kind
+            if rng.random() < 0.6:
+                st['tau'] = np.array(_gen_tau(rng), dtype=float).tolist()
+            steps.append(st)
+    return steps
+
+
+def chk_refusal(ctx, case):
+    """which profiles the setters / solve() refuse, from which statement, and what the object holds afterwards — the real object
+    against the documented rules evaluated exactly (o_x_rule, o_d_rule) and the documented order of solve's keyword block."""
+    np = _np()
+    mod = sys.modules['atomman.defect.SDVPN']
+
+    def bad(key, what):
+        ctx.violate('refusal:' + key, f'{what} [{case["system"]}]', case)
+    v, g, A1, A2, scale = _system(case)
+    pn = new_pn(v, g, case['settings'])
+    ex, ed = np.array(case['x'], dtype=float), np.array(case['d'], dtype=float)
+    pn.x, pn.disregistry = ex.copy(), ed.copy()
+    etau = np.array(case['settings']['tau'], dtype=float)
+    for step, st in enumerate(case['steps']):
+        ctx.stats.case('s:refusal', (case['system'], st['kind'], str(st)[:300]))
+        if st['kind'] == 'set-x':
+            xv = np.array(st['x'], dtype=float)
+            r = call(setattr, pn, 'x', xv.copy())
+            want = o_x_rule(xv)
+            what = f'obj.x = {st["variant"]} grid {st["x"]}'
+            if want == 'ok':
+                ex = xv
+        elif st['kind'] == 'set-d':
+            dv = np.array(st['d'], dtype=float).reshape(-1, 3)
+            r = call(setattr, pn, 'disregistry', dv.copy())
+            want = o_d_rule(dv)
+            what = f'obj.disregistry = {st["variant"]} profile {st["d"]}'
+            if want == 'ok':
+                ed = dv
+        else:
+            akw = {}
+            if st['x'] is not None:
+                akw['x'] = np.array(st['x'], dtype=float)
+            if st['d'] is not None:
+                akw['disregistry'] = np.array(st['d'], dtype=float).reshape(-1, 3)
+            if st['tau'] is not None:
+                akw['tau'] = np.array(st['tau'], dtype=float)
+            orig = mod.minimize
+            mod.minimize = _ScaledMin(st['factor'])
+            try:
+                r = call(pn.solve, **{k_: v_.copy() for k_, v_ in akw.items()})
+            finally:
+                mod.minimize = orig
+            what = (f'solve({", ".join(f"{a}={st["variants"][a]}" for a in st["variants"])}{", tau=…" if st["tau"] is not None else ""}) '
+                    f'with a stub minimiser returning its start vector x {st["factor"]}')
+            # the documented order: x, disregistry, then the other keywords, then the length check, then minimise and store
+            want = o_x_rule(akw['x']) if 'x' in akw else 'ok'
+            if want == 'ok':
+                ex = akw.get('x', ex)
+                want = o_d_rule(akw['disregistry']) if 'disregistry' in akw else 'ok'
+                if want == 'ok':
+                    ed = akw.get('disregistry', ed)
+                    etau = akw.get('tau', etau)
+                    if len(ex) != len(ed):
+                        want = 'lengths'
+                    else:
+                        new = np.zeros((len(ed), 3))
+                        new[0], new[-1] = ed[0], ed[-1]
+                        new[1:-1, 0], new[1:-1, 2] = ed[1:-1, 0] * st['factor'], ed[1:-1, 2] * st['factor']
+                        want = o_d_rule(new)
+                        if want == 'ok':
+                            ed = new
+        cls, text = REFUSAL_OF.get(want, (None, None))
+        if want == 'ok' and isinstance(r, Raised):
+            return bad('spurious', f'{what}: {r}; by the documented rules this is accepted')
+        if want != 'ok' and not isinstance(r, Raised):
+            return bad('missing', f'{what}: accepted; by the documented rules this is refused ({want})')
+        if want != 'ok' and not (r.cls == cls and text in r.text):
+            return bad('stage', f'{what}: {r}; by the documented rules and the order of the keyword block the refusal is {want}')
+        sx, sd, stau = np.asarray(pn.x, dtype=float), np.asarray(pn.disregistry, dtype=float), np.asarray(pn.tau, dtype=float)
+        if sx.shape != ex.shape or not np.array_equal(sx, ex):
+            return bad('state', f'after {what} (outcome {want}) the stored x is {sx.tolist()}, expected {ex.tolist()}')
+        if sd.shape != ed.shape or not np.array_equal(sd, ed):
+            return bad('state', f'after {what} (outcome {want}) the stored disregistry is {sd.tolist()}, expected {ed.tolist()}')
+        if not np.array_equal(stau, etau):
+            return bad('state', f'after {what} (outcome {want}) tau is {stau.tolist()}, expected {etau.tolist()}')
+
+
+CHECKS = {'defaults': chk_defaults, 'refusal': chk_refusal, 'gamma': chk_gamma, 'gseq': chk_gseq, 'sdvpn': chk_sdvpn, 'elastic': chk_elastic, 'solve': chk_solve, 'halfwidth': chk_halfwidth,
           'arctan': chk_arctan, 'xcut': chk_xcut, 'counts': chk_counts}
 
 
@@ -5611,6 +6068,13 @@ def search(ctx, broken):
         except Exception as e:  # noqa
             ctx.violate('sdvpn:construct', f'constructing {name} raised {type(e).__name__}: {e}', {'op': 'none', 'system': name})
             continue
+        xd_, dd_ = _profile_json(rng, pn0, dyadic=True, n=rng.randint(5, 9))
+        run_case(ctx, {'op': 'defaults', 'system': name, 'spec': spec, 'x': xd_, 'd': dd_,
+                       'beta': [[cm.dyadic(rng, 0.125, 2, 3) for _ in range(3)] for _ in range(3)]})
+        for k in range(ctx.n(4, 16) * big):
+            rx, rd = _profile_json(rng, pn0, dyadic=True, n=rng.randint(4, 8))
+            run_case(ctx, {'op': 'refusal', 'system': name, 'spec': spec, 'settings': rand_settings(rng), 'x': rx, 'd': rd,
+                           'steps': gen_refusal_steps(rng, float(np.abs(pn0.burgers).max()))})
         order = combos[:]
         rng.shuffle(order)
         for k, fl in enumerate(order * big):
@@ -5689,7 +6153,7 @@ def replay(ctx, payload):
 
 
 MANIFEST = {
-    'text': 'Lean 4 theorems about a hand-written model of GammaSurface (3x3 tiling and fit window, wrap, edge blend, the three '
+    'text': 'Checked source tie: the SDVPN energy-term methods, disldensity, the default-argument block, constructor frame / flag defaults, solve keyword block / decompose, wrap_cushion / wrap_unit, a12_to_pos and pos_to_a12 are regenerated from the source with ast on every run (Generated/PNEnergy.lean) and proved equal to the hand model (gen_..._eq_model), and the clauses are restated about the generated definitions (source_*).  Lean 4 theorems about a hand-written model of GammaSurface (3x3 tiling and fit window, wrap, edge blend, the three '
             'kinds of query with and without the a1vect/a2vect keywords, coordinate conversions incl. the default plotting axis, '
             'data-model record, the object under set()/model(model=) reloads, 4-index vectors) and of SDVPN (density, six '
             'energy terms, total, object state under setters / solve(**kwargs) / load, method calls with any subset of the '
@@ -5702,5 +6166,5 @@ MANIFEST = {
             'flags) decided against the same oracles',
     'note': 'solve-never-raises and the classical half-width are numerical clauses checked on the real code only (PARTIAL); the '
             'interpolant, log, arctan, sqrt and the minimiser are parameters of the model',
-    'technique': 'Lean 4 theorems over a hand-written model + differential correspondence + exact-oracle search',
+    'technique': 'Lean 4 theorems; translator (ast -> Lean definitions of the energy terms, density, conversions, wraps; gen_..._eq_model obligations) + differential correspondence + exact-oracle search',
 }
